@@ -467,13 +467,21 @@ class FunctionAnalysis:
         elif isinstance(st, ast.Import | ast.ImportFrom):
             for a in st.names:
                 env[(a.asname or a.name).split('.')[0]] = IMM
-        elif isinstance(st, ast.Pass | ast.Break | ast.Continue | ast.Global | ast.Nonlocal):
+        elif isinstance(st, ast.Global):
+            # rebinding these names writes the module's namespace: state that outlives the call
+            self.__dict__.setdefault('global_names', set()).update(st.names)
+        elif isinstance(st, ast.Pass | ast.Break | ast.Continue | ast.Nonlocal):
             pass
         else:
             raise AnalysisError(f'effects: unsupported statement {type(st).__name__} at {self.where(st)}')
 
     def assign(self, t, v: AV, env, st):
-        if isinstance(t, ast.Name):
+        if isinstance(t, ast.Name) and t.id in self.__dict__.get('global_names', ()):
+            tok = f'g:{self.mi.name}.{t.id}'
+            self.mutate(AV(frozenset({tok}), frozenset()), t, f'global {t.id} rebound', stmt_node=st)
+            # what is read back from the name later is that shared object (and whatever was stored in it)
+            env[t.id] = AV(frozenset({tok}), frozenset({tok + '[]'}) | v.all())
+        elif isinstance(t, ast.Name):
             env[t.id] = v
         elif isinstance(t, ast.Tuple | ast.List):
             for i, sub in enumerate(t.elts):
@@ -558,6 +566,9 @@ class FunctionAnalysis:
         if isinstance(e, ast.Name):
             if e.id in env:
                 return env[e.id]
+            if e.id in self.__dict__.get('global_names', ()):
+                tok = f'g:{self.mi.name}.{e.id}'
+                return AV(frozenset({tok}), frozenset({tok + '[]'}))
             return self.global_av(e.id)
         if isinstance(e, ast.Attribute):
             base = self.eval(e.value, env)
